@@ -857,7 +857,7 @@ type NotNode struct {
 }
 
 func (n *NotNode) String() string {
-	return "not " + n.Arg.String()
+	return "not " + operandString(n.Arg)
 }
 
 func (n *NotNode) Children() []Node {
@@ -870,7 +870,7 @@ type NegateNode struct {
 }
 
 func (n *NegateNode) String() string {
-	return "-" + n.Arg.String()
+	return "-" + operandString(n.Arg)
 }
 
 func (n *NegateNode) Children() []Node {
@@ -884,7 +884,20 @@ type BinaryOpNode struct {
 }
 
 func (n *BinaryOpNode) String() string {
-	return n.Arg1.String() + " " + n.Name + " " + n.Arg2.String()
+	return operandString(n.Arg1) + " " + n.Name + " " + operandString(n.Arg2)
+}
+
+// operandString prints an operand of an operator. An operand that is itself an
+// operator expression is parenthesised, so that the printed text parses back to
+// the same tree whatever the precedences of the two operators are.
+func operandString(n Node) string {
+	switch n.(type) {
+	case *NotNode, *NegateNode, *TernNode,
+		*MulNode, *DivNode, *ModNode, *AddNode, *SubNode, *EqNode, *NotEqNode,
+		*GtNode, *GteNode, *LtNode, *LteNode, *OrNode, *AndNode, *ElvisNode:
+		return "(" + n.String() + ")"
+	}
+	return n.String()
 }
 
 func (n *BinaryOpNode) Children() []Node {
@@ -914,7 +927,7 @@ type TernNode struct {
 }
 
 func (n *TernNode) String() string {
-	return n.Arg1.String() + "?" + n.Arg2.String() + ":" + n.Arg3.String()
+	return operandString(n.Arg1) + "?" + operandString(n.Arg2) + ":" + operandString(n.Arg3)
 }
 
 func (n *TernNode) Children() []Node {
